@@ -125,6 +125,13 @@ func (c *fRegistryImpl) dispatch(opid uint64, frame []byte) error {
 	c.mu.RUnlock()
 
 	verifYield("dispatch.beforeSend", opid)
-	resultC <- frame
+	// The result channel holds the one response a request is waiting for. Never
+	// block the transport's read path on it: a duplicate or late response for
+	// an op id whose caller is not (or no longer) receiving is dropped.
+	select {
+	case resultC <- frame:
+	default:
+		logger().Warnf("frugal: dropping unexpected additional response for op id %d", opid)
+	}
 	return nil
 }
